@@ -17,7 +17,7 @@ cp /verif/known_findings.txt "$S/verif/"
 [ "${SKIPBUILD:-0}" = 1 ] || ( cd "$S/repo" && GOFLAGS=-mod=readonly GOPROXY=off GOSUMDB=off GOTOOLCHAIN=local go build ./... ) || { echo "MUTANT DOES NOT COMPILE"; exit 2; }
 hit=1
 Q=${QICHECK:-/verif/bin/qicheck}
-if [ $# -gt 4 ] && [ "${TIER:-quick}" = quick ]; then
+if [ $# -gt 1 ] && [ "${TIER:-quick}" = quick ]; then
   # many properties: one load, every property in turn (dev-time mode of qicheck)
   out=$($Q -property all -repo "$S/repo" -verif "$S/verif" 2>&1)
   for p in "$@"; do
